@@ -230,6 +230,10 @@ func (hdr *TxHeader) ReadFrom(b []byte) error {
 	}
 
 	// following records are currently common in versions 0 and 1
+	if len(b) < i+sha256.Size+txIDSize+sha256.Size {
+		return ErrCorruptedData
+	}
+
 	copy(hdr.Eh[:], b[i:])
 	i += sha256.Size
 
